@@ -13,6 +13,7 @@ SIZES = {
     "float": (320, 4000),
     "centi": (480, 6000),
     "sibling": (480, 6000),
+    "far": (320, 4000),
     "relayout": (480, 6000),
     "budget": (320, 4000),
     "direct": (480, 6000),
